@@ -115,3 +115,19 @@ pub fn compare_board(b: &Board, p: &Pos) -> Result<(), String> {
     }
     Ok(())
 }
+
+/// Reads an engine board back into a reference position (public accessors only).
+pub fn board_to_pos(b: &Board) -> Pos {
+    let mut p = Pos::empty();
+    for s in 0..64u8 {
+        if let (Some(k), Some(c)) = (b.get_piece_at(s), b.get_color_at(s)) {
+            p.sq[s as usize] = Some((ecolor(c), ekind(k)));
+        }
+    }
+    p.stm = ecolor(b.active_color());
+    let (wk, wq) = b.castling_ability(EColor::White);
+    let (bk, bq) = b.castling_ability(EColor::Black);
+    p.castle = [wk, wq, bk, bq];
+    p.ep = b.en_passant_target;
+    p
+}
